@@ -37,7 +37,32 @@ func (fc *FnCtx) contractEnv(st, old *State) *Env {
 		env.vars["&"+fv.Name()] = fc.vals[fv]
 	}
 	env.resName = fc.resultNames()
+	fc.bindContractVars(env, fc.c, "cv")
 	return env
+}
+
+// bindContractVars: "vars k int" of a function contract are arbitrary but fixed constants (universally quantified
+// from the point of view of the proof: nothing is assumed about them).
+func (fc *FnCtx) bindContractVars(env *Env, c *Contract, prefix string) {
+	if c == nil || c.IsLemma {
+		return
+	}
+	for _, v := range c.Vars {
+		key := prefix + "|" + c.Func + "|" + v[0]
+		val, ok := fc.contractVars[key]
+		if !ok {
+			e, err := parseExprSrc(v[1])
+			if err != nil {
+				userErr("contract variable %s: %v", v[0], err)
+			}
+			val = fc.freshVal(prefix+"_"+v[0], env.resolveType(e))
+			if fc.contractVars == nil {
+				fc.contractVars = map[string]Val{}
+			}
+			fc.contractVars[key] = val
+		}
+		env.vars[v[0]] = val
+	}
 }
 
 func (fc *FnCtx) resultNames() []string {
@@ -264,7 +289,12 @@ func (env *Env) objVal(obj types.Object) Val {
 		if v, ok := fc.loadGlobal(g); ok {
 			return v
 		}
-		return fc.loadPtr(env.st, fc.globalAddr(g))
+		gv := fc.loadPtr(env.st, fc.globalAddr(g))
+		if fc.cur != nil && fc.entry != nil && len(env.bound) == 0 {
+			fc.cur.assume(fc.wfFacts(gv))
+			fc.cur.assume(fc.entryHeapFacts(gv))
+		}
+		return gv
 	}
 	userErr("unsupported object %s in contract", obj)
 	return Val{}
@@ -311,6 +341,9 @@ func (env *Env) selectField(base Val, name string) Val {
 			// values read from the heap are well-formed Go values (slice headers, string lengths)
 			if wf := env.fc.wfFacts(cur); wf != "true" && env.fc.cur != nil && len(env.bound) == 0 {
 				env.fc.cur.assume(wf)
+			}
+			if env.fc.cur != nil && env.fc.entry != nil && len(env.bound) == 0 {
+				env.fc.cur.assume(env.fc.entryHeapFacts(cur))
 			}
 			continue
 		}
@@ -588,6 +621,9 @@ func (env *Env) evalCall(x *ast.CallExpr) Val {
 			mt := m.T.Underlying().(*types.Map)
 			k := env.typed(env.eval(x.Args[1]), mt.Key())
 			return boolVal(fc.mapHas(env.st, m, k))
+		case "samearray":
+			a, b := env.eval(x.Args[0]), env.eval(x.Args[1])
+			return boolVal(eq(a.L[0], b.L[0]))
 		case "samebytes":
 			// samebytes(a, b): both slices/strings have equal length and equal contents
 			a, b := env.eval(x.Args[0]), env.eval(x.Args[1])
